@@ -6,7 +6,7 @@ From RV Require Import Gen.Consts Gen.LinkGuards Model.SvgBuild.
 Import ListNotations.
 Local Open Scope Z_scope.
 
-Definition max_step : Z := Z.max KID_DEPTH_STEP USE_DEPTH_STEP.
+Definition max_step : Z := Z.max (Z.max KID_DEPTH_STEP USE_DEPTH_STEP) TEXT_DEPTH_STEP.
 
 Section Limits.
 Variable dl nl : Z.
@@ -25,6 +25,31 @@ Proof.
     [split; [exact H3|discriminate]|split; [exact H3|discriminate]|congruence].
 Qed.
 
+Lemma btext_inv C : nl + 1 <= C -> 0 <= dl ->
+  forall fuel x depth st,
+  dl < Z.of_nat fuel + depth -> depth <= dl + max_step -> binv C st ->
+  binv C (fst (btext dl nl fuel x depth st)) /\ snd (btext dl nl fuel x depth st) <> OOut.
+Proof.
+  intros HC Hdl. induction fuel as [|f IH]; intros x depth st Hfuel Hdepth [Hmd Hcnt].
+  - cbn [btext]. change G_TEXT_DEPTH with true. cbn [andb].
+    assert (depth >? dl = true) as -> by (apply Z.gtb_lt; lia).
+    cbn [fst snd]. split; [|discriminate]. split; cbn [note_depth b_maxdepth b_count]; lia.
+  - cbn [btext]. change G_TEXT_DEPTH with true. cbn [andb].
+    assert (Hnote : binv C (note_depth st depth)) by (split; cbn [note_depth b_maxdepth b_count]; lia).
+    destruct (depth >? dl) eqn:Ed; [split; [exact Hnote|discriminate]|].
+    rewrite Z.gtb_ltb in Ed. apply Z.ltb_ge in Ed.
+    assert (Hstep : 1 <= TEXT_DEPTH_STEP <= max_step) by (unfold max_step, KID_DEPTH_STEP, USE_DEPTH_STEP, TEXT_DEPTH_STEP; lia).
+    apply bkids_inv; [|exact Hnote]. intros k s Hs.
+    destruct (xtag k); try (split; [exact Hs|discriminate]).
+    change G_NODES_BEFORE_APPEND with true. cbn [andb].
+    destruct (b_count s >? nl) eqn:En; [split; [exact Hs|discriminate]|].
+    rewrite Z.gtb_ltb in En. apply Z.ltb_ge in En.
+    assert (Hb : binv C (bump s)) by (destruct Hs; split; cbn [bump b_maxdepth b_count]; lia).
+    destruct (IH k (depth + TEXT_DEPTH_STEP) (bump s)) as [H1 H2]; [lia|lia|exact Hb|].
+    destruct (btext dl nl f k (depth + TEXT_DEPTH_STEP) (bump s)) as [s2 [ks| |]]; cbn [fst snd] in *;
+      (split; [exact H1|congruence]).
+Qed.
+
 Lemma bnode_inv C : nl + 1 <= C -> 0 <= dl ->
   forall fuel doc x origin ig depth st,
   dl < Z.of_nat fuel + depth -> depth <= dl + max_step -> binv C st ->
@@ -39,8 +64,9 @@ Proof.
     assert (Hnote : binv C (note_depth st depth)) by (split; cbn [note_depth b_maxdepth b_count]; lia).
     destruct (depth >? dl) eqn:Ed; [split; [exact Hnote|discriminate]|].
     rewrite Z.gtb_ltb in Ed. apply Z.ltb_ge in Ed.
-    assert (Hstep1 : 1 <= KID_DEPTH_STEP <= max_step) by (unfold max_step, KID_DEPTH_STEP, USE_DEPTH_STEP; lia).
-    assert (Hstep2 : 1 <= USE_DEPTH_STEP <= max_step) by (unfold max_step, KID_DEPTH_STEP, USE_DEPTH_STEP; lia).
+    assert (Hstep1 : 1 <= KID_DEPTH_STEP <= max_step) by (unfold max_step, KID_DEPTH_STEP, USE_DEPTH_STEP, TEXT_DEPTH_STEP; lia).
+    assert (Hstep2 : 1 <= USE_DEPTH_STEP <= max_step) by (unfold max_step, KID_DEPTH_STEP, USE_DEPTH_STEP, TEXT_DEPTH_STEP; lia).
+    assert (Hstep3 : 1 <= TEXT_DEPTH_STEP <= max_step) by (unfold max_step, KID_DEPTH_STEP, USE_DEPTH_STEP, TEXT_DEPTH_STEP; lia).
     change G_NODES_BEFORE_APPEND with true. cbn [andb].
     assert (Hbump : b_count (note_depth st depth) >? nl = false -> binv C (bump (note_depth st depth))).
     { intro E. rewrite Z.gtb_ltb in E. apply Z.ltb_ge in E. cbn [note_depth b_count] in E. split; cbn [bump note_depth b_maxdepth b_count]; lia. }
@@ -63,6 +89,11 @@ Proof.
       (destruct (b_count (note_depth st depth) >? nl) eqn:En; [split; [exact Hnote|discriminate]|]);
       try (exact (Hgen eq_refl _ (fun tg ks => SN (b_next (note_depth st depth)) tg (if ig then None else xname x) (xflag x) (xattrs x) ks)));
       try (split; [exact (Hbump eq_refl)|discriminate]).
+    (* text *)
+    all: try (destruct (btext_inv C HC Hdl f x (depth + TEXT_DEPTH_STEP) (bump (note_depth st depth))) as [H1 H2];
+              [lia|lia|exact (Hbump eq_refl)|];
+              destruct (btext dl nl f x (depth + TEXT_DEPTH_STEP) (bump (note_depth st depth))) as [s2 [ks| |]];
+              cbn [fst snd] in *; (split; [exact H1|congruence])).
     (* use *)
     destruct (resolve_href doc x) as [link|]; [|split; [exact (Hbump eq_refl)|discriminate]].
     destruct (use_skipped doc x origin link); [split; [exact (Hbump eq_refl)|discriminate]|].
@@ -83,8 +114,8 @@ Proof.
                 build_fuel doc doc None false 0 bstate0) as H.
   destruct H as [[H1 H2] H3].
   - unfold build_fuel. rewrite Nat2Z.inj_add, Z2Nat.id by (unfold DEPTH_LIMIT; lia). lia.
-  - unfold max_step, DEPTH_LIMIT, KID_DEPTH_STEP, USE_DEPTH_STEP. lia.
-  - split; unfold bstate0; cbn [b_maxdepth b_count]; unfold max_step, DEPTH_LIMIT, KID_DEPTH_STEP, USE_DEPTH_STEP, NODES_LIMIT; lia.
+  - unfold max_step, DEPTH_LIMIT, KID_DEPTH_STEP, USE_DEPTH_STEP, TEXT_DEPTH_STEP. lia.
+  - split; unfold bstate0; cbn [b_maxdepth b_count]; unfold max_step, DEPTH_LIMIT, KID_DEPTH_STEP, USE_DEPTH_STEP, TEXT_DEPTH_STEP, NODES_LIMIT; lia.
   - destruct (bnode DEPTH_LIMIT NODES_LIMIT build_fuel doc doc None false 0 bstate0)
       as [s [ks| |]]; cbn [fst snd] in *; repeat split; try assumption; congruence.
 Qed.
@@ -158,13 +189,38 @@ Proof.
   destruct (bkids rec r s1) as [s2 [b|e|]]; cbn [snd] in *; [split; discriminate|exact Hr|exact Hr].
 Qed.
 
+Lemma utext_false_finite dl nl : forall fuel x,
+  utext fuel x = false ->
+  forall depth st, depth + max_step * Z.of_nat fuel <= dl ->
+  not_depth_fail (snd (btext dl nl fuel x depth st)).
+Proof.
+  assert (Hms : max_step = 2) by reflexivity. rewrite Hms in *.
+  assert (Hstep : 1 <= TEXT_DEPTH_STEP <= 2) by (unfold TEXT_DEPTH_STEP; lia).
+  induction fuel as [|f IH]; intros x Hu depth st Hd; [discriminate|].
+  rewrite Nat2Z.inj_succ in Hd. cbn [utext] in Hu. cbn [btext].
+  assert (Ed : depth >? dl = false) by (rewrite Z.gtb_ltb; apply Z.ltb_ge; lia).
+  rewrite Ed, andb_false_r.
+  apply bkids_not_depth. intros k s Hk.
+  destruct (xtag k) eqn:Et; try (split; discriminate).
+  destruct (G_NODES_BEFORE_APPEND && (b_count s >? nl)); [split; discriminate|].
+  assert (Hk' : utext f k = false).
+  { destruct (utext f k) eqn:E; [|reflexivity].
+    assert (existsb (fun k => match xtag k with TTspan => utext f k | _ => false end) (xkids x) = true) as Ht
+      by (apply existsb_exists; exists k; split; [exact Hk|rewrite Et; exact E]). congruence. }
+  assert (Hr : not_depth_fail (snd (btext dl nl f k (depth + TEXT_DEPTH_STEP) (bump s)))) by (apply IH; [exact Hk'|lia]).
+  destruct (btext dl nl f k (depth + TEXT_DEPTH_STEP) (bump s)) as [s2 [ks|e|]]; cbn [snd] in *;
+    [split; discriminate|exact Hr|exact Hr].
+Qed.
+
 Lemma uloop_false_finite dl nl doc : forall fuel path x origin,
   uloop fuel doc path x origin = false ->
-  forall ig depth st, depth + max_step * Z.of_nat fuel <= dl + max_step ->
+  forall ig depth st, depth + max_step * Z.of_nat fuel <= dl ->
   not_depth_fail (snd (bnode dl nl fuel doc x origin ig depth st)).
 Proof.
-  assert (Hstep1 : 1 <= KID_DEPTH_STEP <= max_step) by (unfold max_step, KID_DEPTH_STEP, USE_DEPTH_STEP; lia).
-  assert (Hstep2 : 1 <= USE_DEPTH_STEP <= max_step) by (unfold max_step, KID_DEPTH_STEP, USE_DEPTH_STEP; lia).
+  assert (Hstep1 : 1 <= KID_DEPTH_STEP <= max_step) by (unfold max_step, KID_DEPTH_STEP, USE_DEPTH_STEP, TEXT_DEPTH_STEP; lia).
+  assert (Hstep2 : 1 <= USE_DEPTH_STEP <= max_step) by (unfold max_step, KID_DEPTH_STEP, USE_DEPTH_STEP, TEXT_DEPTH_STEP; lia).
+  assert (Hstep3 : 1 <= TEXT_DEPTH_STEP <= max_step) by (unfold max_step, KID_DEPTH_STEP, USE_DEPTH_STEP, TEXT_DEPTH_STEP; lia).
+  pose proof (utext_false_finite dl nl) as Htext.
   assert (Hms : max_step = 2) by reflexivity. rewrite Hms in *.
   induction fuel as [|f IH]; intros path x origin Hu ig depth st Hd; [discriminate|].
   rewrite Nat2Z.inj_succ in Hd.
@@ -191,6 +247,11 @@ Proof.
     (destruct (G_NODES_BEFORE_APPEND && (b_count (note_depth st depth) >? nl)); [split; discriminate|]);
     try (exact (Hkids _ Hu (fun tg ks => SN (b_next (note_depth st depth)) tg (if ig then None else xname x) (xflag x) (xattrs x) ks)));
     try (split; discriminate).
+  (* text *)
+  all: try (assert (Ht : not_depth_fail (snd (btext dl nl f x (depth + TEXT_DEPTH_STEP) (bump (note_depth st depth)))))
+              by (apply Htext; [exact Hu|lia]);
+            destruct (btext dl nl f x (depth + TEXT_DEPTH_STEP) (bump (note_depth st depth))) as [s2 [ks|e|]]; cbn [snd] in *;
+            [split; discriminate|exact Ht|exact Ht]).
   (* use *)
   destruct (resolve_href doc x) as [link|]; [|split; discriminate].
   destruct (use_skipped doc x origin link); [split; discriminate|].
@@ -215,6 +276,6 @@ Proof.
                 bstate0) as H.
   destruct (bnode (max_step * Z.of_nat F) nl F doc doc None false 0 bstate0)
     as [s [ks|e|]]; cbn [snd] in *; [exact I| |].
-  - destruct H as [H _]; [unfold max_step, KID_DEPTH_STEP, USE_DEPTH_STEP; lia|]. destruct e; [congruence|exact I].
-  - destruct H as [_ H]; [unfold max_step, KID_DEPTH_STEP, USE_DEPTH_STEP; lia|]. congruence.
+  - destruct H as [H _]; [lia|]. destruct e; [congruence|exact I].
+  - destruct H as [_ H]; [lia|]. congruence.
 Qed.
